@@ -32,6 +32,7 @@ ELEMS = ['ElemNR', 'ElemTR', 'ElemTC']
 CFGS = {
     # name: (driver, std, defs)
     'main17': ('inst_main.cpp', 'c++17', ['-DAMC_NONSTD_FEATURES', '-DNDEBUG']),
+    'sets17': ('inst_sets.cpp', 'c++17', ['-DAMC_NONSTD_FEATURES', '-DNDEBUG']),
 }
 
 def repo_fingerprint():
@@ -82,6 +83,7 @@ class Spec:
         self.path = path
         self.props = []
         self.throws = False
+        self.opself = 'self'
         self.clauses = []      # (tags, label, text)
         self.loops = {}        # ordinal -> [text]
         self.defs = []         # raw lines '#define ...' to be placed before the unit
@@ -103,6 +105,8 @@ def load_specs():
                 cur.props = line.split()[1:]
             elif line.startswith('#throws'):
                 cur.throws = True
+            elif line.startswith('#opself '):
+                cur.opself = line[len('#opself '):].strip()
             elif line.startswith('#loop '):
                 loop = int(line.split()[1]); cur.loops[loop] = []
             elif line.startswith('#end'):
@@ -131,11 +135,11 @@ def load_specs():
                     (['C08'], 'after a capacity-limit error contents, size, capacity, storage and all counters are exactly as before',
                      '__CPROVER_ensures(l0_exc != V_LIMIT_EXC || V_UNTOUCHED)' if line.startswith('@GROW(') else '__CPROVER_ensures(l0_exc != V_LIMIT_EXC || V_UNTOUCHED_BUT_TEMP)'),
                     (['C07'], 'no reallocation when the result fits the capacity', '__CPROVER_ensures((uint64_t)(%s) > pre_self.capa || V_NO_REALLOC)' % x),
-                    (['C07'], 'capacity never decreases and size <= capacity <= max_size', '__CPROVER_ensures(V_CAPA(self) >= pre_self.capa && V_SIZE(self) <= V_CAPA(self) && V_CAPA(self) <= V_LIMIT)'),
+                    (['C07'], 'capacity never decreases and size <= capacity <= max_size', '__CPROVER_ensures(V_CAPA(OPSELF) >= pre_self.capa && V_SIZE(OPSELF) <= V_CAPA(OPSELF) && V_CAPA(OPSELF) <= V_LIMIT)'),
                     (['C18', 'C06'], 'growth is geometric: exactly one allocator request, capacity max(1.5*old, needed) clamped to the size_type',
-                     '__CPROVER_ensures(!(l0_exc == 0 && V_DYNAMIC && (uint64_t)(%s) > pre_self.capa) || (V_GREW_ONCE && V_CAPA(self) == GROW_SPEC(pre_self.capa, %s)))' % (x, x)),
+                     '__CPROVER_ensures(!(l0_exc == 0 && V_DYNAMIC && (uint64_t)(%s) > pre_self.capa) || (V_GREW_ONCE && V_CAPA(OPSELF) == GROW_SPEC(pre_self.capa, %s)))' % (x, x)),
                     (['C05'], 'an inline vector whose size stays within N stays inline and makes no allocator request',
-                     '__CPROVER_ensures(!(V_INLINE_PRE && (uint64_t)(%s) <= g_N) || (!V_HEAP(self) && g_nalloc == pre_g.nalloc && g_nrealloc == pre_g.nrealloc))' % x),
+                     '__CPROVER_ensures(!(V_INLINE_PRE && (uint64_t)(%s) <= g_N) || (!V_HEAP(OPSELF) && g_nalloc == pre_g.nalloc && g_nrealloc == pre_g.nrealloc))' % x),
                     (['C09', 'C08'], 'only the documented exception kinds', '__CPROVER_ensures(V_EXC_KINDS)')]:
                     cur.clauses.append((tg, lab, txt))
                 pending = None
@@ -172,6 +176,12 @@ def splice(lowered_text, specs, cnames, subst):
                 if spec is None:
                     raise Infra('no spec for function %s' % fn)
                 found.add(fn)
+                out_lines.append('#undef OPSELF')
+                out_lines.append('#define OPSELF %s' % spec.opself)
+                # memory-shape predicate: freshness for the function under proof (assumed, allocates), validity for a replaced callee
+                # (asserted at the call site, where the operand may be a sub-object of the caller's operand)
+                out_lines.append('#undef V_FRESH')
+                out_lines.append('#define V_FRESH(p, n) %s' % ('__CPROVER_is_fresh(p, n)' if fn == cnames[0] else '__CPROVER_rw_ok(p, n)'))
                 for tags, label, text in spec.clauses:
                     for k, v in subst.items():
                         text = text.replace(k, v)
@@ -181,6 +191,8 @@ def splice(lowered_text, specs, cnames, subst):
                         if text.lstrip().startswith('__CPROVER_' + kind):
                             k = 1 + len([1 for key in ordinals if key[0] == fn and key[1] == kind])
                             ordinals[(fn, kind, k)] = (fn, tags, label, text)
+                if fn == cnames[0]:
+                    out_lines.append('__CPROVER_requires(CASE_PRED)')
                 extra = []
                 if fn == cnames[0]:     # only the function under proof gets the reachability guards (not the replaced callees)
                     extra = [('__CPROVER_ensures(VAC_NORMAL || l0_exc != 0)', 'vacuity guard: normal exit reachable')]
@@ -254,6 +266,9 @@ def build_unit_text(unit, xdir, specs, report):
         if fn in unit.get('replace', []) and fn != target:
             continue
         todo.extend(report['lowered'][fn]['callees'])
+    for prim, users in report.get('unknown_l0', {}).items():
+        if any(uu in reach for uu in users):
+            raise Infra('function %s reaches %s which calls %s: no L0 semantics for it' % (target, [uu for uu in users if uu in reach][:2], prim))
     kept, skipping = [], False
     for line in lowered.split('\n'):
         m = re.match(r'^/\*@PROTO (\w+)@\*/ (.*)$', line)
@@ -280,8 +295,10 @@ def build_unit_text(unit, xdir, specs, report):
     head = ['#include <stdint.h>', '#include <stddef.h>']
     for k, v in defs.items():
         head.append('#define %s %s' % (k, v))
+    head.append('#ifdef WITH_SETS\n#define SETS_GHOST_ASSIGNS , g_lb_calls, g_unregistered_read\n#else\n#define SETS_GHOST_ASSIGNS\n#endif')
     head.append('#ifndef VAC_NORMAL\n#define VAC_NORMAL 1\n#endif\n#ifndef VAC_EXC\n#define VAC_EXC 1\n#endif')
     head.append('#ifndef KF_EXCLUDE\n#define KF_EXCLUDE 1\n#endif')
+    head.append('#ifndef CASE_PRED\n#define CASE_PRED 1\n#endif')
     head.append('#include "l0.h"')
     head.append('#include "inv.h"')
     head.append('uint64_t g_N; struct vsnap pre_self, pre_o; struct gsnap pre_g; _Bool g_alias; uint64_t g_src, g_pos, g_pos2, g_cnt;')
@@ -325,6 +342,10 @@ def run_unit(unit, xdir, specs, report, variant='main', extra_defs=(), log=print
     if rc != 0:
         return fail('goto-instrument: ' + (out + err)[-1500:])
     cmdc = ['cbmc', 'unit2.gb'] + CBMC_FLAGS + list(unit.get('cbmc_flags', []))
+    if variant.startswith('vacuity'):
+        for key, c in cmap['ordinals'].items():
+            if 'VAC' in c[1] and key[1] == 'ensures':
+                cmdc += ['--property', '%s.postcondition.%d' % (key[0], key[2])]
     rc, out, err, dt = run(cmdc, cwd=udir, timeout=timeout, mem_gb=14)
     open(os.path.join(udir, 'cbmc.json'), 'w').write(out)
     if err == 'TIMEOUT':
